@@ -348,6 +348,17 @@ ApiModel buildApiModel(uint64_t seed, int variant, const ApiOpts* optsIn) {
 			}
 		desc << " +collision volumes";
 	}
+	if (o.foreignBinaryExtraFirst) {
+		for (auto& name : M.shapeNames)
+			if (auto sh = nif.FindBlockByName<NiShape>(name)) {
+				auto bed = std::make_unique<NiBinaryExtraData>();
+				bed->name.get() = "Editor marker data";
+				bed->data.resize(8);
+				for (size_t i = 0; i < 8; i++) bed->data[i] = (uint8_t)(i + 1);
+				nif.AssignExtraData(sh, std::move(bed));
+			}
+		desc << " +foreign binary extra data first";
+	}
 	if (o.tangents) {
 		for (auto& name : M.shapeNames)
 			if (auto sh = nif.FindBlockByName<NiShape>(name))
@@ -550,6 +561,27 @@ int rotatePartitionTriangles(NifFile& nif, Rng& rng) {
 	return changed;
 }
 
+NiShape* addLinesShape(NifFile& nif, const std::string& name, Rng& rng) {
+	auto root = nif.GetRootNode();
+	if (!root) return nullptr;
+	auto& hdr = nif.GetHeader();
+	std::vector<Vector3> pts(4 + rng.below(6));
+	for (auto& p : pts) p = Vector3(rng.range(-8, 8), rng.range(-8, 8), rng.range(-8, 8));
+	auto ld = std::make_unique<NiLinesData>();
+	auto ldRaw = ld.get();
+	ld->Create(hdr.GetVersion(), &pts, nullptr, nullptr, nullptr);
+	ld->lineFlags.assign(pts.size(), true);
+	uint32_t dataId = hdr.AddBlock(std::move(ld));
+	auto ls = std::make_unique<NiLines>();
+	auto lsRaw = ls.get();
+	ls->name.get() = name;
+	ls->DataRef()->index = dataId;
+	ls->SetGeomData(ldRaw);
+	uint32_t id = hdr.AddBlock(std::move(ls));
+	root->childRefs.AddBlockRef(id);
+	return lsRaw;
+}
+
 int dropPartitionFaces(NifFile& nif) {
 	int changed = 0;
 	auto& hdr = nif.GetHeader();
@@ -592,7 +624,7 @@ std::string applyRandomEdits(NifFile& nif, Rng& rng, int n) {
 	auto& hdr = nif.GetHeader();
 	for (int k = 0; k < n; k++) {
 		auto shapes = nif.GetShapes();
-		int op = (int)rng.below(15);
+		int op = (int)rng.below(16);
 		switch (op) {
 			case 0:
 				if (!shapes.empty()) {
@@ -681,6 +713,18 @@ std::string applyRandomEdits(NifFile& nif, Rng& rng, int n) {
 				break;
 			case 9: log += "deleteUnreferenced;"; nif.DeleteUnreferencedBlocks(); break;
 			case 10: log += "prettySort;"; nif.PrettySortBlocks(); break;
+			case 15:
+				// match groups of a NiTriShapeData (groups of vertices that share a position; the library offers a setter)
+				for (auto s : shapes)
+					if (auto td = dynamic_cast<NiTriShapeData*>(s->GetGeomData())) {
+						if (td->GetNumVertices() < 3) continue;
+						std::vector<MatchGroup> mg(1 + rng.below(2));
+						for (auto& g : mg) { g.count = 2; g.matches = {(uint16_t)rng.below(td->GetNumVertices()), (uint16_t)rng.below(td->GetNumVertices())}; }
+						td->SetMatchGroups(mg);
+						log += "setMatchGroups(" + s->name.get() + ");";
+						break;
+					}
+				break;
 			case 14:
 				// per-vertex eye data (BSTriShape family; a BSDynamicTriShape recomputes it from the positions when it is saved)
 				for (auto s : shapes)
